@@ -109,6 +109,27 @@ TAIL = {
     'expr_rules': {'options.layer and {layer: 1 for layer in options.layer}': 'fresh:Any'},
 }
 
+OT, OP = "old(options.test_path)", "old(options.path)"
+NT = "ite(%s is None, 0, len(%s))" % (OT, OT)
+NP = "ite(%s is None, 0, len(%s))" % (OP, OP)
+# the search directories: --test-path entries first, then --path entries, each in the order given, none dropped, none
+# merged -- discovery order (hence default execution order, hence what a seeded shuffle permutes) is a function of the
+# command line alone, never of string hashing or set iteration
+PATHS = {
+    'property': ['C11', 'C14', 'C15'],
+    'fragment': {'start': 'options.path = options.path or []', 'end': "options.test_path = [(path, '')"},
+    'params': {'options': 'Rec[OptionsPaths]'},
+    'requires': [],
+    'modifies': ['options.path', 'options.test_path'],
+    'ensures': [
+        "options.test_path is not None",
+        "len(options.test_path) == %s + %s" % (NT, NP),
+        "forall(q, Int, implies(%s is not None and 0 <= q and q < len(%s), options.test_path[q] == %s[q]))" % (OT, OT, OT),
+        "forall(q, Int, implies(%s is not None and 0 <= q and q < len(%s), options.test_path[%s + q] == %s[q]))" % (OP, OP, NT, OP),
+    ],
+    'raises': {},
+}
+
 
 def register(E):
     E.load_sidecar(os.path.join(HERE, 'common.py'))
@@ -144,3 +165,5 @@ def register(E):
         walk_syntactic(E)
     E.add_contract('find.remove_stale_bytecode', REMOVE)
     E.add_contract('options.get_options', TAIL)
+    E.records['OptionsPaths'] = {'path': 'Opt[List[Str]]', 'test_path': 'Opt[List[Str]]'}
+    E.add_contract('options.get_options@paths', PATHS)
